@@ -127,7 +127,14 @@ func execTimeout(input string) string {
 		message.VerifSetSender(&blockingSender{gate: gate})
 		for _, sp := range specs {
 			if sp.gate != nil {
-				sp.gateFn = func() { _ = ex.SendMessage(message.Message{MessageType: "t", Key: "k"}) }
+				sp.gateFn = func() {
+					select {
+					case <-gate:
+						return // the scenario is over: the sender singleton is gone, do not call it again
+					default:
+					}
+					_ = ex.SendMessage(message.Message{MessageType: "t", Key: "k"})
+				}
 			}
 		}
 	}
